@@ -555,6 +555,50 @@ theorem dropped_span_valid_context_not_exported (h : run cfg World.init ops = so
 theorem run_exported_nodup (h : run cfg World.init ops = some (w, obs)) : w.exported.Nodup :=
   (run_inv ops _ _ _ (inv_init cfg) h).expNodup
 
+/-! ## a tracer disabled by the `ScopeConfigurator` (tracer.cc:57-59 -> the API `NoopTracer`) -/
+
+/-- a disabled tracer's `StartSpan` draws no id, touches no thread's stack and nothing already started, ended or exported:
+    it only appends its no-op span -/
+theorem disabled_start_frame {w w' : World} {t : Nat} {p : ParentSpec} {o : Obs} (h : startDisabled w t p = some (w', o)) :
+    w'.gen = w.gen ∧ w'.stacks = w.stacks ∧ w'.ended = w.ended ∧ w'.exported = w.exported ∧
+    w'.spans = w.spans ++ [noopStarted] ∧ o = .started noopStarted := by
+  unfold startDisabled at h
+  cases hr : resolveSpec w t p with
+  | none => rw [hr] at h; cases h
+  | some po =>
+    rw [hr] at h
+    simp only [Option.map_some, Option.some.injEq, Prod.mk.injEq] at h
+    obtain ⟨h1, h2⟩ := h
+    subst h1; subst h2
+    exact ⟨rfl, rfl, rfl, rfl, rfl, rfl⟩
+
+/-- the span of a disabled tracer is not recording, and ending it exports nothing -/
+theorem disabled_span_never_exported {cfg : Config} {w w' : World} {t : Nat} {p : ParentSpec} {o : Obs}
+    (h : startDisabled w t p = some (w', o)) :
+    noopStarted.recording = false ∧
+    ∃ w'', step cfg w' (.endSpan w.spans.length) = some (w'', .notExported) ∧ w''.exported = w.exported := by
+  obtain ⟨_, _, _, hexp, hsp, _⟩ := disabled_start_frame h
+  refine ⟨rfl, ?_⟩
+  have hk : w'.spans[w.spans.length]? = some noopStarted := by rw [hsp]; simp
+  unfold step stepV
+  simp only [hk, Option.map_some]
+  by_cases hc : w'.ended.contains w.spans.length = true
+  · rw [if_pos hc]; exact ⟨_, rfl, hexp⟩
+  · rw [if_neg hc]
+    have : noopStarted.recording = false := rfl
+    simp only [this]
+    exact ⟨_, rfl, hexp⟩
+
+/-- as-is: the no-op span of a disabled tracer does **not** expose a valid context, whatever parent was given (the
+    statement's "still exposes this valid context for propagation" holds for spans dropped by the sampler - theorem
+    `dropped_span_valid_context_not_exported` - not for spans of a disabled tracer) -/
+theorem disabled_span_context_invalid_witness : noopStarted.ctx.isValid = false := by decide
+
+/-- … so a span started by an enabled tracer under an active no-op span of a disabled tracer has no parent: with the
+    active context invalid and no explicit parent, `resolveParent` answers the invalid context -/
+theorem disabled_span_active_gives_root : resolveParent noopStarted.ctx (.spanContext SpanContext.invalid) = SpanContext.invalid := by
+  decide
+
 /-! ### threads -/
 
 /-- the scope operations of thread `t` -/
